@@ -93,9 +93,13 @@ func c09Collision(r *Rng, forced int) c09WS {
 		case 2:
 			return c09CrossFileMembers(r)
 		}
-		forced = r.Intn(7)
+		forced = r.Intn(8)
 	}
-	switch forced % 7 {
+	switch forced % 8 {
+	case 7: // a configuration file whose per-file rules overlap: two rules with different type lists match the same file
+		lib := "local function util(p)\n  local u1, u2 = 1, 2\n  local w1\n  w1 = p\n  return p\nend\nlocal a, b = util(1), 2, 3\nprint(a, b, undefinedInLib)\n"
+		return c09WS{"config-file-overlapping-rules", map[string]string{"lib/util.lua": lib, "lib/other.lua": lib, "main.lua": "local m1, m2 = 1\nprint(undefinedInMain)\n",
+			"luahelper.json": `{"IgnoreFileErrTypes":[{"File":"lib/","Types":[4]},{"File":"lib/util.lua","Types":[7,17]},{"File":"util","Types":[2]},{"File":"main.lua","Types":[4]}]}`}}
 	case 6: // a configuration file with name lists (ignored unused locals, ignored modules) and scopes that mix listed and unlisted names
 		var sb strings.Builder
 		sb.WriteString("local function work(p)\n")
@@ -364,7 +368,7 @@ func runC09(c *Ctx) {
 	}
 	for i := 0; i < nColl; i++ {
 		forced := -1
-		if i < 21 {
+		if i < 24 {
 			forced = i // three of each hand-written kind first
 		}
 		wss = append(wss, c09Collision(root.Fork(uint64(100000+i)), forced))
